@@ -7,8 +7,9 @@ from pyvc.state import V, Out
 from . import app_contracts as ac
 
 PROP = "C04"
-LEVEL = "other"
-EXPLANATION = "under construction"
+LEVEL = 'proof'
+EXPLANATION = ("Deductive: Command.handle is verified against the status contract (0 iff the handler's value is false-y, else int() of it clamped into 1..255, interrupt -> 1; result always in 0..255) for every kind of handler value; exception_to_exit_code yields 1..255; ConsoleApplication.run is verified structurally: with catching enabled every Exception / KeyboardInterrupt raised by the io factory, the resolution or the handler reaches a handler clause, nothing escapes, the status is in range.  Bounded: all handler outcomes of the property x verbosity x listener behaviours through the real run(), report printed, handler invoked exactly once.")
+LEVEL_NOTE = ('assumes: Command._do_handle records the handler outcome in a ghost field (handler protocol, decided by the bounded tier); ExceptionTrace.render and the indent scope do not raise (decided under C20 / C11); resolve_command returns a command or raises a library error; the io factory is an arbitrary callable that returns an IO or raises; SystemExit/GeneratorExit out of scope')
 TARGETS = [
     ac.M_CMD + ":Command.handle",
     ac.M_APP + ":ConsoleApplication.exception_to_exit_code",
